@@ -193,7 +193,7 @@ def run_case(case):
     wit = {k: case[k] for k in ("m", "n", "mode", "strides", "multi", "ci", "co", "batch",
                                 "dd", "df", "via")}
     defined = mode == "full" or ge or le
-    kw = dict(mode=mode, strides=vary_seq(strides, (sum(case["rs"]) // 5) % 6),
+    kw = dict(mode=mode, strides=vary_seq(strides, (sum(case["rs"]) // 5) % 8),
               multi_channel=multi)
     d0, f0 = data.copy(order="C"), filt.copy(order="C")
     try:
